@@ -202,8 +202,16 @@ def run_stats (case, rep):
       return h
     con.addListenerByName(name, mk(st))
   nexus_got = []
-  core.openflow.addListenerByName("FlowStatsReceived",
-                                  lambda e: nexus_got.append(1))
+  lid = core.openflow.addListenerByName("FlowStatsReceived",
+                                        lambda e: nexus_got.append(1))
+  try:
+    return _run_stats_body(case, rep, fire, peer, got)
+  finally:
+    # (one more nexus listener per case made the run quadratic)
+    core.openflow.removeListener(lid)
+
+
+def _run_stats_body (case, rep, fire, peer, got):
   # requests: list of dict(type, xid, parts=[[ids],...], complete)
   reqs = case["requests"]
   expected = []          # in completion order
